@@ -626,6 +626,11 @@ class Machine:
                             break
                     return 0
             return U
+        if short in bytesets.LIBC and not e.get('clsp') and e.get('obj') is None and len(e.get('a', [])) == 1:
+            a0 = self.ev(e['a'][0], env, c)             # character classification of the C library (C locale)
+            if a0 is U or isinstance(a0, tuple):
+                return U
+            return bytesets.LIBC[short](a0)
         if short in self.d.get('pure', ()) or self.pure_scalar(e):
             args = [self.ev(a, env, c) for a in e.get('a', [])]
             if any(a is U for a in args):
